@@ -602,7 +602,10 @@ func (in *Interp) sleep(d *Term) {
 		return
 	}
 	woke := false
-	t := in.newTimer(tc.Ite(tc.Slt(d, tc.Const(64, 0)), tc.Const(64, 0), d), "sleep")
+	if !nonNeg(d) {
+		d = tc.Ite(tc.Slt(d, tc.Const(64, 0)), tc.Const(64, 0), d)
+	}
+	t := in.newTimer(d, "sleep")
 	t.fn = func() { woke = true }
 	in.block("sleep", func() bool { return woke })
 }
